@@ -37,6 +37,15 @@ func Interface(ifaceVar interface{}, ctx *iface.IContext, method string, imp int
 		cause := erro.NewArgsNotMatchError(imp, argLen, maxLen+1)
 		return erro.NewIllegalParamCError("interface As()", reflect.ValueOf(imp).String(), cause)
 	}
+	// 参数个数(除去第一个 IContext 参数)和返回值个数必须和接口方法一致
+	if argLen != maxLen+1 {
+		cause := erro.NewArgsNotMatchError(imp, argLen, maxLen+1)
+		return erro.NewIllegalParamCError("interface As()", reflect.ValueOf(imp).String(), cause)
+	}
+	if outLen, expectLen := reflect.TypeOf(imp).NumOut(), typ.Method(funcTabIndex).Type.NumOut(); outLen != expectLen {
+		cause := erro.NewReturnsNotMatchError(imp, outLen, expectLen)
+		return erro.NewIllegalParamCError("interface As()", reflect.ValueOf(imp).String(), cause)
+	}
 
 	// 首次调用备份 iface
 	gen := hack.UnpackEFace(ifaceVar).Data
